@@ -1155,6 +1155,16 @@ Proof.
   apply linear_hashes_keys_perm. apply fragments_equivariant; assumption.
 Qed.
 
+(* the fragment dictionary itself: under renumbering every key keeps its multiplicity (a key absent from one
+   dictionary has the empty list, length 0, in the other) *)
+Theorem fragment_counts_invariant (s : Z -> Z) g lo hi k :
+  (forall x y, s x = s y -> x = y) -> wf_mol g = true ->
+  length (fget (fragments (rename_mol s g) lo hi) k) = length (fget (fragments g lo hi) k).
+Proof.
+  intros Hinj Hwf. unfold fragments, fragments_with. rewrite !fragments_of_count. unfold key_count.
+  apply Permutation_length, Permutation_filter, Permutation_sym, fragments_equivariant; assumption.
+Qed.
+
 Lemma bit_list_In len nab hashes bits b : bit_list len nab hashes = Ok bits ->
   (In b bits <-> exists t, In t hashes /\ In b (fold_bits len nab t)).
 Proof.
@@ -1538,6 +1548,17 @@ Section Reordered.
     forall x, In x (linear_hash_list h g lo hi nbp) <-> In x (linear_hash_list h g' lo hi nbp).
   Proof.
     unfold linear_hash_list, fragments, fragments_with. apply linear_hashes_keys_perm.
+    rewrite (map_ext (frag_key (ident (atom_identifiers g')) (bond_order g'))
+                     (frag_key (ident (atom_identifiers g)) (bond_order g))).
+    - apply Permutation_map. apply chains_reordered.
+    - intro p. symmetry. apply frag_key_ext; [apply reordered_ident | apply reordered_bond_order].
+  Qed.
+
+  Theorem fragment_counts_reordered lo hi k :
+    length (fget (fragments g lo hi) k) = length (fget (fragments g' lo hi) k).
+  Proof.
+    unfold fragments, fragments_with. rewrite !fragments_of_count. unfold key_count.
+    apply Permutation_length, Permutation_filter.
     rewrite (map_ext (frag_key (ident (atom_identifiers g')) (bond_order g'))
                      (frag_key (ident (atom_identifiers g)) (bond_order g))).
     - apply Permutation_map. apply chains_reordered.
